@@ -173,6 +173,21 @@ def _gate_sequence_product(U_list, ind_list):
 
     >>> U_list, overall_inds = _gate_sequence_product(tensor_lst, overall_inds)
     """
+    if any(len(inds) == 0 for inds in ind_list):
+        # An operator without qubit indices does not act on any particular
+        # qubit, it can only be a multiple of the identity (e.g. the propagator
+        # of a GLOBALPHASE gate, whatever its size): it contributes a scalar.
+        phase = 1.0
+        for U, inds in zip(U_list, ind_list):
+            if len(inds) == 0:
+                phase *= U.tr() / U.shape[0] if isinstance(U, Qobj) else U
+        U_list = [U for U, inds in zip(U_list, ind_list) if len(inds) > 0]
+        ind_list = [inds for inds in ind_list if len(inds) > 0]
+        if len(U_list) == 0:
+            return Qobj([[phase]]), []
+        U_overall, overall_inds = _gate_sequence_product(U_list, ind_list)
+        return phase * U_overall, overall_inds
+
     num_qubits = len(set(chain(*ind_list)))
     sorted_inds = sorted(set(_flatten(ind_list)))
     ind_list = [[sorted_inds.index(ind) for ind in inds] for inds in ind_list]
